@@ -130,7 +130,8 @@ impl<'a> Selector<'a> {
         let mut poses = VecDeque::new();
 
         let start_pos = if let Some(Path::Current) = paths.first() {
-            current.expect("missing current position").clone()
+            // `@` is only valid inside a filter expression.
+            current.ok_or(Error::InvalidJsonPath)?.clone()
         } else {
             Position::Container((0, root.len()))
         };
@@ -495,7 +496,8 @@ impl<'a> Selector<'a> {
             Expr::FilterFunc(filter_expr) => match filter_expr {
                 FilterFunc::Exists(paths) => self.eval_exists(root, pos, paths),
             },
-            _ => todo!(),
+            // arithmetic expressions are not supported yet.
+            _ => Err(Error::InvalidJsonPath),
         }
     }
 
